@@ -310,8 +310,8 @@ func semaRound(r *result, rnd *rand.Rand, n uint) bool {
 					r.violate("ChanSemaphore: a cancelled Acquire returned %v", err)
 				}
 				_ = mainErr // whoever got the slot: both outcomes are admissible
-			case <-time.After(time.Second):
-				r.violate("ChanSemaphore(cap 1): an Acquire whose context was cancelled a second ago has not returned (the slot was released and taken by another caller right after the cancellation; iteration %d)", it)
+			case <-time.After(5 * time.Second):
+				r.violate("ChanSemaphore(cap 1): an Acquire whose context was cancelled five seconds ago has not returned (the slot was released and taken by another caller right after the cancellation; iteration %d)", it)
 				return false
 			}
 		}
@@ -336,15 +336,14 @@ func semaRound(r *result, rnd *rand.Rand, n uint) bool {
 				}()
 			}
 			go7.Done()
-			if !waitTimeout(&rel, time.Second) {
+			if !waitTimeout(&rel, 5*time.Second) {
 				r.violate("ChanSemaphore(cap %d): a Release blocked (4 Releases at once, one slot taken)", n)
 				return false
 			}
 			for i := uint(0); i < n; i++ {
-				c7, cf := context.WithTimeout(context.Background(), 200*time.Millisecond)
-				err := s7.Acquire(c7)
-				cf()
-				if err != nil {
+				// (no deadline on the context: on a loaded machine an expired deadline and a free slot
+				// could both be ready, and either may then be chosen)
+				if !callTimeout(func() { _ = s7.Acquire(context.Background()) }, 5*time.Second) {
 					r.violate("ChanSemaphore(cap %d): after surplus Releases only %d slots can be taken", n, i)
 					return false
 				}
